@@ -1,12 +1,14 @@
 //! Driver for libp2p-kad components: k-bucket table (C37, C38), key metric (C40), peer iterators (C39),
 //! memory store (C41), record lifetimes and inbound request handling (C42, C43), wire codec (C44).
 mod kbucket;
+mod store;
 
 fn main() {
     let a = vcommon::Args::parse();
     let sub = vcommon::Args { mode: a.mode.clone(), rest: a.rest.clone() };
     match a.mode.as_str() {
         "kbucket" => kbucket::main(&sub),
+        "store" => store::main(&sub),
         m => {
             eprintln!("unknown mode {m}");
             std::process::exit(2)
